@@ -30,7 +30,8 @@ MANIFEST = dict(
          'generated storage types (storage_ok), top-level composite.  C++ std / allocator flavour / array container do not reach the models '
          '(pairwise runs only).  Python observability limits (no consumed size, one error class, setters reject out-of-range values) are '
          'respected: such requests are counted as not comparable for that target.  Big-endian hosts are not covered.  Translators run: '
-         'optguard, c01, codec_tpl (option list, is_zero_cost_primitive, codec template structure are in the cone of Properties/C03.v).',
+         'optguard, c03opt, c01, codec_tpl (option list, scan of where each option reaches the codec templates, is_zero_cost_primitive, codec '
+         'template structure are in the cone of Properties/C03.v).  Assertion statements hold on the domain override-off / no capacity macro.',
     design='§5 C03')
 
 TRUSTED = [
